@@ -233,7 +233,7 @@ func (o *Origins) compute(v ssa.Value, depth int) *Term {
 	case *ssa.Parameter:
 		return &Term{Op: "param", Name: x.Name()}
 	case *ssa.FreeVar:
-		return &Term{Op: "param", Name: x.Name()}
+		return &Term{Op: "param", Name: "^" + x.Name()}
 	case *ssa.Const:
 		return &Term{Op: "const", Name: constText(x)}
 	case *ssa.Global:
@@ -566,7 +566,7 @@ func (o *Origins) load(ld *ssa.UnOp, depth int) *Term {
 		// stores to the same field exist: they must all go through the same base pointer value,
 		// then the reaching ones (flow-sensitive) describe the load.
 		for _, st := range o.fieldStores[k] {
-			if st.Addr.(*ssa.FieldAddr).X != a.X {
+			if sb := st.Addr.(*ssa.FieldAddr).X; sb != a.X && !distinctObjects(sb, a.X) {
 				return opaque("mem:" + fname)
 			}
 		}
@@ -599,7 +599,7 @@ func (o *Origins) load(ld *ssa.UnOp, depth int) *Term {
 	case *ssa.IndexAddr:
 		return o.of(a, depth+1)
 	case *ssa.FreeVar:
-		return &Term{Op: "param", Name: a.Name()}
+		return &Term{Op: "param", Name: "^" + a.Name()}
 	}
 	// *p for a pointer that is not a local: transparent (a struct and a pointer to it have the same origin)
 	return o.of(ld.X, depth+1)
@@ -871,4 +871,32 @@ func FuncAlias(v ssa.Value) *ssa.Function {
 	}
 	funcAliasMemo[g] = found
 	return found
+}
+
+// distinctObjects: two pointer values that certainly (by convention) denote different objects: one of them is
+// the fresh result of a call or allocation in this function and the other is a parameter / receiver / captured
+// variable, or both are results of different calls. (Assumption: a callee does not return a pointer that aliases
+// the caller's receiver; stated in DESIGN.md.)
+func distinctObjects(a, b ssa.Value) bool {
+	fresh := func(v ssa.Value) bool {
+		switch x := v.(type) {
+		case *ssa.Call, *ssa.Alloc:
+			return true
+		case *ssa.Extract:
+			_, ok := x.Tuple.(*ssa.Call)
+			return ok
+		}
+		return false
+	}
+	named := func(v ssa.Value) bool {
+		switch v.(type) {
+		case *ssa.Parameter, *ssa.FreeVar:
+			return true
+		}
+		return false
+	}
+	if a == b {
+		return false
+	}
+	return fresh(a) && (named(b) || fresh(b)) || fresh(b) && named(a)
 }
